@@ -9,8 +9,10 @@ import (
 	"fmt"
 	"math"
 	"math/rand"
+	"os"
 	"sort"
 	"strings"
+	"time"
 )
 
 type generator struct {
@@ -44,7 +46,14 @@ func (g *generator) run(r *runner) {
 			n = 6000
 		}
 	}
+	start := time.Now()
 	for i := 0; i < n; i++ {
+		// a library that stops terminating (or becomes very slow) is a finding after a few occurrences: do not
+		// spend the whole run waiting for watchdogs
+		if r.st.Timeouts >= 4 || (r.st.Timeouts > 0 && time.Since(start) > 4*time.Minute) {
+			fmt.Fprintf(os.Stderr, "harness gen: stopping after %d timeouts (%d of %d cases run)\n", r.st.Timeouts, i, n)
+			break
+		}
 		id := fmt.Sprintf("%s-%d-%d", g.prop, g.seed, i)
 		c := g.newCase(g.prop, i)
 		hugeIdx := (g.tier == "thorough" && i%100 == 50) || i == 1000 || i == 1037 || i == 1074
